@@ -14,7 +14,7 @@ var encodeSites = []string{"struct.size", "map.size", "map.append", "slice.size"
 
 var allDecodeSites = []string{"map.entry", "map.key", "map.value", "struct.read", "struct.append", "slice.elem", "slice.append", "time.read", "json.map", "json.array", "json.kv", "slice.varint"}
 
-var vocabPool = []string{"", "a", "b", "ab", "abc", "abd", "abcd", "a\x00", "\x00", "\xff\xfe", "\x80", "prefix-common-1", "prefix-common-2", "prefix-common-", "prefix-common-12", "USD", "EUR", "GBP", "status:ok", "status:failed", "héllo", "日本語", "x"}
+var vocabPool = []string{"", "a", "b", "ab", "abc", "abd", "abcd", "a\x00", "\x00", "\xff\xfe", "\x80", "prefix-common-1", "prefix-common-2", "prefix-common-", "prefix-common-12", "USD", "EUR", "GBP", "status:ok", "status:failed", "héllo", "日本語", "x", "it’s", "a–b…", "“q”"}
 
 // collidingPairs are values that collide under weak keys an interning table
 // might be tempted to use: well-known 32-bit FNV-1a collisions, same length +
@@ -206,7 +206,7 @@ func GenC19(seed uint64, idx int) *Scenario {
 	// and half of those go into the thousands: records that carry dozens of values for the same
 	// field each (a table that compacts, re-hashes or changes representation at 1024 or 2048
 	// entries has to get there, with values that recur)
-	huge := big && r.Intn(2) == 0
+	huge := big && r.Intn(4) == 0
 	if huge {
 		n := 1400 + r.Intn(1400)
 		v := make([]string, n)
@@ -225,7 +225,7 @@ func GenC19(seed uint64, idx int) *Scenario {
 			nops = 150 + r.Intn(250)
 		}
 		if huge {
-			nops = 70 + r.Intn(60)
+			nops = 45 + r.Intn(40)
 		}
 		var ops []Op
 		for len(ops) < nops {
